@@ -98,8 +98,8 @@ claim("C07",
       "On top of Helmert.tla and Catalogue!ShiftSet (parameter + rate * days/365.25, exact): Trace_Helmert (TLC) validates "
       "chains of real conform14 / transform_atrf2014_to_gda2020 / transform_gda2020_to_atrf2014 calls for every dated shipped "
       "set and random dated sets over epochs 1980..2060 (reference epoch itself, +-1 day, leap days, year starts, epochs before "
-      "the reference epoch): value within 2 um of the formula with exactly advanced parameters, bit-identical to conform7 at "
-      "the reference epoch, ATRF helpers bit-identical to conform14 with the plate-motion set, exactly the identity at "
+      "the reference epoch): value within 2 um of the formula with exactly advanced parameters (which at the reference epoch is the "
+      "7-parameter formula, and for the ATRF helpers the formula with the plate-motion set), exactly the identity at "
       "2020-01-01, set-then-negation at the same epoch within the second-order bound. Audit_Helmert decides the formula-level "
       "statements on the catalogue.",
       "Trusted: as C06. The 8-decimal rounding of re-referenced parameters in the code (< 0.3 um at 1e7 m) is inside the stated 2 um.",
@@ -262,9 +262,9 @@ claim("C13",
       "Geo2Grid(natural zone)) with the height rule and the covariance rule; TLC checks order, rules and termination for all "
       "direction x height x covariance classes. The driver calls the public pipeline AND the public step functions itself; "
       "Trace_Mga (TLC) consumes the stage events with Mga's actions and decides: every stage's input is the previous stage's output "
-      "bit for bit, the pipeline's return equals the stepwise result exactly (4-decimal height rounding), no input height -> 0 in / "
+      "bit for bit, the pipeline's return equals the stepwise result up to one unit of the 4-decimal output rounding, no input height -> 0 in / "
       "0 out, covariance out iff in, natural zone of the transformed position (also within 2 m of a zone boundary), the Helmert "
-      "stage against Helmert.tla (1 um), covariance symmetric / PSD / bit-identical to local2cart -> conform7 -> cart2local AND equal "
+      "stage against Helmert.tla (1 um), covariance symmetric / PSD / equal (1e-9) to local2cart -> conform7 -> cart2local AND equal "
       "in VALUE (1e-9 relative) to the specification's own R2^T (M (R1 V R1^T) M^T + sum sd_k^2 j_k j_k^T) R2 with the east-north-up "
       "frames from Trig.tla (sines/cosines in the spec), Helmert.tla's Jacobian and the PUBLISHED parameter uncertainties, and "
       "there-and-back returns within 0.3 mm / 0.2 mm (grid, or geographic when the zone changes).",
@@ -276,7 +276,7 @@ claim("C14",
       "GridGeodesic.tla: InvUTM as the behaviour Grid2Geo; Grid2Geo; Inverse; LineSF, DirUTM as an iteration whose termination "
       "TLC checks (liveness under weak fairness, contraction abstraction, passes <= 4). Trace_GridGeodesic (TLC) decides on real "
       "calls: vincinv_utm returns exactly ellipsoidal distance x line scale factor and azimuth + convergence at each end in its own "
-      "zone (bit for bit against the public step functions), line scale factor within 3e-7 of the range of point scale factors along "
+      "zone (against the public step functions: 1 um, 1e-10 deg, 1e-12), line scale factor within 3e-7 of the range of point scale factors along "
       "the line and within 5e-7 of their Simpson mean up to 100 km, vincdir_utm fed with the inverse's output reproduces the second "
       "point within 1 mm in the first point's zone also when it was given in the adjacent zone, and EXACTLY: along a central "
       "meridian between Pythagorean latitudes grid distance = k0 x difference of meridian arcs (MeridianArc), bearings 0/180, line "
